@@ -276,7 +276,15 @@ func propTransfer(c *Case) {
 				imp2 := &cache.HTTPTransfer{}
 				dst := newDumpCache(c, s.family)
 				imp2.AddCache(name, dst.wdr())
-				imp2.Transport = &fakeTransport{handler: tr.handler, faults: map[string]rtFault{name: {mode: 5, k: k}}, sizes: map[string]int{}, seen: map[string]int{}}
+				// the handler is asked again for every offset: the length of a body may differ from call to
+				// call (entries come in map order; a compressed body is not order-independent), so the last
+				// step simply does not truncate
+				cut := k
+				if k == size {
+					cut = 1 << 30
+				}
+
+				imp2.Transport = &fakeTransport{handler: tr.handler, faults: map[string]rtFault{name: {mode: 5, k: cut}}, sizes: map[string]int{}, seen: map[string]int{}}
 
 				err := func() (err error) {
 					defer func() { panicked = recover() }()
